@@ -10,6 +10,7 @@ TABLE = {
     "C08": ("bounded.c08", "run_c08"),
     "C09": ("bounded.c09", "run_c09"), "C10": ("bounded.c09", "run_c10"),
     "C11": ("bounded.c11", "run_c11"), "C12": ("bounded.c11", "run_c12"), "C13": ("bounded.c11", "run_c13"), "C14": ("bounded.c11", "run_c14"),
+    "C15": ("bounded.c15", "run_c15"), "C16": ("bounded.c15", "run_c16"), "C19": ("bounded.c15", "run_c19"), "C20": ("bounded.c15", "run_c20"),
     "C17": ("bounded.c17", "run_c17"), "C18": ("bounded.c17", "run_c18"),
 }
 
